@@ -173,6 +173,18 @@ int main(void)
 			snprintf(buf, sizeof(buf), "%" PRIuPTR, got ? ids[got-1] : (uintptr_t) 0);
 			result(v, buf, 0);
 		}
+		else if (!strcmp(op, "holdemit") && drv_nw == 3) {
+			/* known finding: an event that reaches a reservation which is still outstanding (placeholder handler
+			 * log_reply, which takes its second argument for a message) */
+			uintptr_t w;
+			MPT_STRUCT(event) ev = MPT_EVENT_INIT;
+			if (parse_id(drv_w[2], &w) || w > 9) { puts("bad-op"); continue; }
+			MPT_STRUCT(command) *c = mpt_command_reserve((MPT_STRUCT(array) *) (void *) &D->_d, w);
+			if (!c) { result("refused", "null", 0); continue; }
+			ev.id = c->id;
+			int ret = mpt_dispatch_emit(DISP, &ev);
+			result_ret(ret, ev.id);
+		}
 		else if (!strcmp(op, "reserve") && drv_nw == 3) {
 			uintptr_t w;
 			if (parse_id(drv_w[2], &w) || nreg >= MAXREG) { puts("bad-op"); continue; }
